@@ -66,11 +66,9 @@ def diagnose_not_a_window(timer, w):
             if cs["split"] <= 1 or cs["s"] == cs["e"]:
                 continue
             span = cs["e"] - cs["s"] if cs["e"] >= cs["s"] else 1440 - (cs["s"] - cs["e"])
-            if span % cs["split"]:
-                continue
             part = span // cs["split"]
             for i in range(cs["split"]):
-                m = cs["s"] + i * part
+                m = cs["s"] + (i * span) // cs["split"]
                 if m >= 1440 and win["s"] % 86400 == (m - 1440) * 60 and win["e"] - win["s"] == part * 60:
                     return "split-part-after-midnight-anchored-on-same-day", "%02d:%02d%s%02d:%02d/%d" % (
                         cs["s"] // 60, cs["s"] % 60, "~" if cs["spread"] else "-", cs["e"] // 60, cs["e"] % 60, cs["split"])
@@ -445,7 +443,8 @@ def run(ctx):
         "one Ensure pass per tick",
         "late launches (scheduled instant missed because of a hold, a change in flight, the retry delay or a network "
         "error) are only required not to be early",
-        "'/N' is only specified when N divides the span in minutes; spread placement inside a window is unconstrained",
+        "'/N' parts at minute granularity (start and length truncated to whole minutes, as the unchanged code computes them); "
+        "spread placement inside a window is unconstrained",
         "protocol traces: real wall clock, scenarios placed relative to it; passes slower than 400ms are not checked",
         "grammar: token strings over the listed alphabets only; '/' time (documented but unsupported) and one-digit "
         "hours are outside the alphabets",
